@@ -63,24 +63,38 @@ def tiers(ctx):
     q = ctx.tier == "quick"
     mc = consts(MaxNodes=3, MaxDepth=2)
     mid = dict(Lits=S("p1", "nl", "br2"), VarVals=S("p1", "e1", "d2", "w1"), ThisVals=S("p1", "d4"),
-               FldVals=S("p1", "d1"), CondVals=S("bT", "bF", "e1", "p1"), LoopLeafs=S("this", "idx", "last"))
+               FldVals=S("p1", "d1"), CondVals=S("bT", "bF", "e1", "p1"), LoopLeafs=S("this", "idx", "last"),
+               SubM=S("subm"), GFlds=S("g1"))
     loops = dict(Lits=S(), Conds=S(), QFlds=S(), Blocks=S(), Imgs=S(), CondOpens=S(), AllowExt=False, CondVals=S("bT"))
     layers = {
         # every name, literal and value class in every position of the smallest templates
         "wide": consts(FULL, MaxNodes=2, MaxDepth=3, NoiseOpts=vlib.Raw("{FALSE}") if q else NOISE),
-        # every loop shape up to two levels with every value class
-        "loops": consts(FULL, loops, MaxNodes=3, MaxDepth=3, Vars=S("v1"), Flds=S("f1"),
-                        NoiseOpts=vlib.Raw("{FALSE}") if q else NOISE),
         # every combination of constructs over a reduced alphabet
-        "deep": consts(mid, MaxNodes=3 if q else 4, MaxDepth=2 if q else 3),
+        "deep": consts(mid, MaxNodes=3 if q else 4, MaxDepth=3),
     }
-    sim = dict(num=60, depth=40, limit=4000) if q else dict(num=600, depth=60, limit=60000)
+    if not q:
+        # every loop shape up to two levels with every value class and with unused data
+        layers["loops"] = consts(FULL, loops, MaxNodes=3, MaxDepth=3, Vars=S("v1"), Flds=S("f1"), NoiseOpts=NOISE)
+    sim = dict(num=30, depth=40, limit=4000) if q else dict(num=600, depth=60, limit=60000)
     simc = consts(FULL, MaxNodes=7 if q else 9, MinNodes=4 if q else 5, MaxDepth=3, NoiseOpts=NOISE)
     return mc, layers, simc, sim
 
 
 def bounds_of(c):
     return {k: (sorted(v) if isinstance(v, frozenset) else (v.s if isinstance(v, vlib.Raw) else v)) for k, v in c.items()}
+
+
+def attribute(wits):
+    """A deviating case is known when its class set includes the class set of a recorded finding (DESIGN §5 C16:
+    'a failing case with no listed class is a VIOLATION'); it is then reported under that finding's signature."""
+    known = [k["signature"] for k in vlib.load_known() if k["property"] == "C16" and k.get("status", "open") == "open"]
+    for w in wits:
+        if w["sig"][0] != "C16":
+            continue
+        for ks in known:
+            if ks[1] == w["sig"][1] and set(ks[2:]) <= set(w["sig"][2:]):
+                w["sig"][:] = list(ks)
+                break
 
 
 def judge(ctx, cases, tag):
@@ -95,6 +109,7 @@ def judge(ctx, cases, tag):
             raise vlib.Machinery("the harness compared against tokens that are not Tmpl!Render of the logged case (case %s)" % w["case"])
         # the judge prints the class set in TLC's internal order; sort it so that a signature is canonical
         w["sig"][2:] = sorted(w["sig"][2:])
+    attribute(wits)
     if os.path.exists(stat):
         with open(stat) as f:
             st = json.load(f)
